@@ -678,6 +678,11 @@ class Manager:
         self._eventDone(event, err)
 
     def _eventDone(self, event, err=None):
+        if err is not None:
+            # remember the failure: the call that finally completes the
+            # event (after the last suspended handler) may not carry it
+            event._failed = True
+
         if event.waitingHandlers:
             return
 
@@ -688,7 +693,7 @@ class Manager:
         if event.alert_done:
             self.fire(event.child('done', event.value.value), *event.channels)
 
-        if err is None and event.success:
+        if err is None and not event._failed and event.success:
             channels = getattr(event, 'success_channels', event.channels)
             self.fire(event.child('success', event, event.value.value), *channels)
 
